@@ -253,7 +253,7 @@ def case_topo(c, out):
     TIMEOUT = float(lt or 10)                 # what the configuration asks for, not what the component ended up with
     CYCLE = TIMEOUT / 2.0                     # documented: every port is probed once per half timeout
     CALM = TIMEOUT + CYCLE + 1.0
-    quiesce_dt = max(QUIESCE, CYCLE + TIMEOUT + 5.0 + 4.0)
+    quiesce_dt = CYCLE + TIMEOUT + 5.0 + 4.0      # probe cycle + link timeout + expiry sweep period + slack (24 s by default)
     live_since = {}
     churn = [w.clock.now]                     # last time a switch connected or disconnected (the sender re-times itself)
 
@@ -831,7 +831,7 @@ def plan(tier):
             Enum("launch-options", lambda: enum_options("quick"), shards=16),
             Hyp("probe-random", _probe, examples=400, shards=4),
             Hyp("static-random", lambda: _static(8), examples=2000, shards=4),
-            Hyp("histories", lambda: _topo(5, 8), examples=1200, shards=16)]
+            Hyp("histories", lambda: _topo(5, 8), examples=900, shards=16)]
   return [Enum("static-graphs", lambda: enum_static("thorough"), shards=16),
           Enum("probe-boundaries", lambda: enum_probe("thorough"), shards=8),
           Enum("converge-small-graphs", lambda: enum_topo("thorough"), shards=16),
